@@ -280,6 +280,9 @@ def must(fn, *a, what=None, **kw):
         return fn(*a, **kw)
     except (Discrepancy, HarnessError, Skip):
         raise
+    except MemoryError as e:
+        # the environment, not the property: inconclusive
+        raise HarnessError(f"out of memory: {e}") from None
     except RecursionError as e:
         raise Discrepancy(
             f"raises:RecursionError@{what or getattr(fn, '__name__', '?')}",
@@ -303,6 +306,8 @@ def attempt(fn, *a, **kw):
         return True, fn(*a, **kw)
     except (Discrepancy, HarnessError, Skip):
         raise
+    except MemoryError as e:
+        raise HarnessError(f"out of memory: {e}") from None
     except RecursionError as e:
         return False, e
     except NameError as e:
